@@ -2,10 +2,14 @@ package props
 
 import (
 	"fmt"
+	"go/token"
 	"path/filepath"
 	"strings"
 
+	"golang.org/x/tools/go/ssa"
+
 	"lcv/core"
+	"lcv/eng"
 )
 
 // assetTreeShape: every file selected by the //go:embed patterns of v2/assets has exactly three path
@@ -34,4 +38,310 @@ func assetTreeShape(c *Ctx, p *core.Prog) (bool, string) {
 		}
 	}
 	return true, fmt.Sprintf("all %d embedded files (patterns %v) have exactly 3 components and end in txt", len(pk.EmbedFiles), pk.EmbedPatterns)
+}
+
+func init() {
+	register(&Check{
+		ID:      "C12",
+		Modules: []string{"v2"},
+		Explanation: "Static rules on the two corpus loaders: (R12.1) every constant-position access to the path segments in LoadLicenses is covered by a dominating length guard; (R12.2) taint: the raw directory argument reaches only path-aware functions (filepath.Walk/Rel/Clean/Abs/Join), never string arithmetic, so the result cannot depend on how the directory is spelled; " +
+			"(R12.3) a path is accepted by the walk exactly under the guard strings.HasSuffix(path, \"txt\"); (R12.4) every embedded asset has exactly three path components and ends in txt, both loaders pass (component 0, 1, 2, bytes) to AddContent in that order, and DefaultClassifier returns a classifier that is fresh on every call. " +
+			"Necessary conditions of the equivalence for all trees and spellings; equality of the resulting Match behaviour additionally rests on C04.",
+		Run: runC12,
+	})
+}
+
+func runC12(c *Ctx) {
+	p := c.Prog("v2")
+	if p == nil {
+		return
+	}
+	ll := p.Func(v2pkg, "(*Classifier).LoadLicenses")
+	if !c.R.Anchor(ll != nil, "v2.(*Classifier).LoadLicenses") {
+		return
+	}
+	fns := core.WithAnon(ll)
+
+	// R12.1
+	obls := eng.FindNonEmpty(fns)
+	for _, o := range obls {
+		if ok, how := dischargeNE(c, p, o); ok {
+			c.R.OK("R12.1", o.Key, p.Pos(o.Instr.Pos()), how)
+		} else {
+			c.R.Fail("R12.1", o.Key, p.Pos(o.Instr.Pos()), fmt.Sprintf("no dominating guard establishes len >= %d: a file that lies shallower than category/name/variant makes LoadLicenses panic", o.Need))
+		}
+	}
+	c.R.RequireMin("R12.1", "constant-position segment accesses in LoadLicenses", len(obls), 3)
+
+	// R12.2
+	checkDirTaint(c, p, ll)
+
+	// R12.3
+	checkSuffixFilter(c, p, fns)
+
+	// R12.4
+	ok, why := assetTreeShape(c, p)
+	c.R.Check(ok, "R12.4", "embedded asset tree: every file is category/name/variant and ends in txt", "v2/assets", why, why)
+	checkAddContentArgs(c, p, ll, "segments")
+	if dc := p.Func(core.V2Mod+"/assets", "DefaultClassifier"); c.R.Anchor(dc != nil, "v2/assets.DefaultClassifier") {
+		for _, f := range core.WithAnon(dc) {
+			checkAddContentArgs(c, p, f, "splits")
+		}
+		// freshness: the classifier returned is allocated by this call
+		e := eng.NewExplorer(p, matchScope...)
+		ret := e.Run(dc, nil)
+		fresh := len(ret) > 0 && ret[0] == eng.Fresh
+		c.R.Check(fresh, "R12.4", "DefaultClassifier returns a classifier allocated by this call", p.Pos(dc.Pos()),
+			"result provenance: Fresh", fmt.Sprintf("result provenance %v: the classifier is shared between callers (a later AddContent on one result changes what other callers get), so it is no longer equivalent to LoadLicenses on the assets directory", provOf(ret)))
+		for _, v := range e.Viol {
+			if v.Prov&eng.Global != 0 {
+				c.R.Fail("R12.4", "DefaultClassifier: "+v.Construct, p.Pos(v.Pos), "DefaultClassifier writes package-level state: "+v.Detail)
+			}
+		}
+	}
+}
+
+func provOf(ps []eng.Prov) string {
+	if len(ps) == 0 {
+		return "-"
+	}
+	return ps[0].String()
+}
+
+var pathAware = map[string]bool{
+	"path/filepath.Walk": true, "path/filepath.WalkDir": true, "path/filepath.Rel": true, "path/filepath.Clean": true, "path/filepath.Abs": true,
+	"path/filepath.Join": true, "path/filepath.EvalSymlinks": true, "os.ReadDir": true, "io/ioutil.ReadDir": true, "os.Stat": true, "os.Open": true, "os.DirFS": true, "io/fs.WalkDir": true,
+}
+
+// checkDirTaint: R12.2.
+func checkDirTaint(c *Ctx, p *core.Prog, ll *ssa.Function) {
+	if len(ll.Params) < 2 {
+		c.R.Fail("R12.2", "LoadLicenses: dir parameter", p.Pos(ll.Pos()), "unexpected signature")
+		return
+	}
+	dir := ll.Params[1]
+	tainted := map[ssa.Value]bool{dir: true}
+	var work []ssa.Value
+	work = append(work, dir)
+	// spilled copies (captured by closures)
+	uses := 0
+	bad := 0
+	report := func(in ssa.Instruction, what string) {
+		bad++
+		c.R.Fail("R12.2", "LoadLicenses: raw dir argument reaches "+what, p.Pos(in.Pos()), "the directory argument as spelled by the caller (trailing separator, ./ prefix, relative/absolute) is used in string arithmetic; it may only be handed to path-aware functions (filepath.Rel/Clean/Abs/Join/Walk)")
+	}
+	seenInstr := map[ssa.Instruction]bool{}
+	for len(work) > 0 {
+		v := work[len(work)-1]
+		work = work[:len(work)-1]
+		refs := v.Referrers()
+		if refs == nil {
+			continue
+		}
+		for _, r := range *refs {
+			if seenInstr[r] {
+				continue
+			}
+			seenInstr[r] = true
+			switch x := r.(type) {
+			case *ssa.DebugRef:
+			case *ssa.Store:
+				// spill to a captured variable: all loads of that cell are tainted
+				if x.Val == v {
+					if al, ok := x.Addr.(*ssa.Alloc); ok {
+						for _, rr := range *al.Referrers() {
+							if ld, ok := rr.(*ssa.UnOp); ok && !tainted[ld] {
+								tainted[ld] = true
+								work = append(work, ld)
+							}
+							if mc, ok := rr.(*ssa.MakeClosure); ok {
+								// captured by reference: loads of the free variable in the closure
+								fnc := mc.Fn.(*ssa.Function)
+								for i, b := range mc.Bindings {
+									if b == al {
+										fv := fnc.FreeVars[i]
+										for _, fr := range *fv.Referrers() {
+											if ld, ok := fr.(*ssa.UnOp); ok && !tainted[ld] {
+												tainted[ld] = true
+												work = append(work, ld)
+											}
+										}
+									}
+								}
+							}
+						}
+					} else {
+						report(x, "a store ("+x.Addr.String()+")")
+					}
+				}
+			case *ssa.Phi:
+				if !tainted[x] {
+					tainted[x] = true
+					work = append(work, x)
+				}
+			case *ssa.BinOp:
+				if x.Op == token.ADD {
+					if !tainted[x] {
+						tainted[x] = true
+						work = append(work, x)
+					}
+				} else {
+					report(x, "a string comparison ("+x.Op.String()+")")
+				}
+			case *ssa.Slice:
+				report(x, "a slice expression")
+			case *ssa.Lookup, *ssa.Index:
+				report(x, "an index expression")
+			case *ssa.MakeInterface:
+				if !tainted[x] {
+					tainted[x] = true
+					work = append(work, x)
+				}
+			case *ssa.MakeClosure:
+				fnc := x.Fn.(*ssa.Function)
+				for i, b := range x.Bindings {
+					if b == v && i < len(fnc.FreeVars) {
+						if !tainted[fnc.FreeVars[i]] {
+							tainted[fnc.FreeVars[i]] = true
+							work = append(work, fnc.FreeVars[i])
+						}
+					}
+				}
+			case *ssa.IndexAddr:
+				// element of a varargs array
+				if !tainted[x] {
+					tainted[x] = true
+					work = append(work, x)
+				}
+			case *ssa.Convert, *ssa.ChangeType:
+				if !tainted[x.(ssa.Value)] {
+					tainted[x.(ssa.Value)] = true
+					work = append(work, x.(ssa.Value))
+				}
+			case ssa.CallInstruction:
+				uses++
+				cc := x.Common()
+				name := core.StaticCalleeName(cc)
+				if b, ok := cc.Value.(*ssa.Builtin); ok {
+					report(x, "builtin "+b.Name())
+					continue
+				}
+				if pathAware[name] {
+					continue // result is a cleaned / resolved path
+				}
+				if f := cc.StaticCallee(); f != nil && isTraceFn(f) {
+					continue
+				}
+				switch name {
+				case "fmt.Sprintf", "fmt.Sprint", "fmt.Errorf":
+					if call, ok := x.(*ssa.Call); ok {
+						if name == "fmt.Errorf" {
+							continue // error text only
+						}
+						if !tainted[call] {
+							tainted[call] = true
+							work = append(work, call)
+						}
+					}
+					continue
+				case "log.Printf", "log.Println":
+					continue
+				}
+				if name == "" {
+					name = "a dynamic call"
+				}
+				report(x, name)
+			}
+		}
+	}
+	c.R.Count("R12.2:uses of dir", uses)
+	if bad == 0 {
+		c.R.OK("R12.2", "LoadLicenses: the raw dir argument only reaches path-aware functions", p.Pos(ll.Pos()), fmt.Sprintf("%d call sites receive it, all of filepath.Walk/Rel/Clean/Abs/Join kind", uses))
+	}
+	c.R.RequireMin("R12.2", "uses of the dir argument", uses, 2)
+}
+
+// checkSuffixFilter: R12.3.
+func checkSuffixFilter(c *Ctx, p *core.Prog, fns []*ssa.Function) {
+	n := 0
+	for _, f := range fns {
+		if f.Parent() == nil {
+			continue // the walk callback is a closure
+		}
+		for _, call := range core.CallsIn(f) {
+			b, ok := call.Common().Value.(*ssa.Builtin)
+			if !ok || b.Name() != "append" {
+				continue
+			}
+			el := singleVarargElem(call.Common().Args[1])
+			if el == nil {
+				continue
+			}
+			if _, isParam := core.Unspill(el).(*ssa.Parameter); !isParam {
+				continue
+			}
+			n++
+			okSuffix := false
+			for _, fct := range core.FactsAtInstr(call) {
+				cl, ok := fct.Cond.(*ssa.Call)
+				if !ok || !fct.Truth || core.StaticCalleeName(&cl.Call) != "strings.HasSuffix" {
+					continue
+				}
+				if s, ok := core.ConstString(cl.Call.Args[1]); ok && s == "txt" && core.Unspill(cl.Call.Args[0]) == core.Unspill(el) {
+					okSuffix = true
+				}
+			}
+			c.R.Check(okSuffix, "R12.3", core.ShortFn(f)+": a path is collected only under strings.HasSuffix(path, \"txt\")", p.Pos(call.Pos()),
+				"append(files, path) is dominated by the true edge of strings.HasSuffix(path, \"txt\")",
+				"the acceptance condition of the walk is not `path ends in \"txt\"`: the set of files loaded differs from the documented one (files whose name merely ends in txt, or other suffixes)")
+		}
+	}
+	c.R.RequireMin("R12.3", "collect sites in the walk callback", n, 1)
+}
+
+// checkAddContentArgs: the loader passes split[0], split[1], split[2] as category, name, variant.
+func checkAddContentArgs(c *Ctx, p *core.Prog, fn *ssa.Function, what string) {
+	for _, call := range core.CallsIn(fn) {
+		cal := call.Common().StaticCallee()
+		if cal == nil || cal.Name() != "AddContent" {
+			continue
+		}
+		args := call.Common().Args
+		ok, why := true, "AddContent(x[0], x[1], x[2], bytes) on one split of the relative path"
+		var split ssa.Value
+		for i := 1; i <= 3 && i < len(args); i++ {
+			ld, isLd := args[i].(*ssa.UnOp)
+			if !isLd {
+				ok, why = false, fmt.Sprintf("argument %d of AddContent is not a path component", i)
+				break
+			}
+			ia, isIA := ld.X.(*ssa.IndexAddr)
+			if !isIA {
+				ok, why = false, fmt.Sprintf("argument %d of AddContent is not a path component", i)
+				break
+			}
+			k, isK := core.ConstInt(ia.Index)
+			if !isK || k != int64(i-1) {
+				ok, why = false, fmt.Sprintf("argument %d of AddContent is path component %d, expected %d", i, k, i-1)
+				break
+			}
+			if split == nil {
+				split = ia.X
+			} else if split != ia.X {
+				ok, why = false, "the three components come from different splits"
+			}
+		}
+		if ok && split != nil {
+			if sc, isCall := split.(*ssa.Call); !isCall || core.StaticCalleeName(&sc.Call) != "strings.Split" {
+				ok, why = false, "the components are not taken from strings.Split of the relative path"
+			} else if fn.Name() == "LoadLicenses" {
+				// the string split must be the result of filepath.Rel
+				src := sc.Call.Args[0]
+				if ex, isEx := src.(*ssa.Extract); !isEx || !isCallTo(ex.Tuple, "path/filepath.Rel") {
+					ok, why = false, "the path that is split is not the result of filepath.Rel(dir, file)"
+				}
+			}
+		}
+		c.R.Check(ok, "R12.4", core.ShortFn(fn)+": AddContent receives path components 0, 1, 2 in order", p.Pos(call.Pos()), why, why)
+	}
 }
